@@ -61,7 +61,7 @@ def run_schedule(sched, var):
 def gen(rng, n):
     from .anngen import positions
     alive, req, sched = False, set(), []
-    for (t, j) in positions(rng, n, gaps=(0, 0, 0, 0, 1, 1, 2, 3)):
+    for (t, j) in positions(rng, n, gaps=(0, 0, 0, 0, 0, 0, 1, 1, 2, 3)):
         r = rng.random()
         if r < 0.22:
             sched.append({"t": t, "j": j, "op": "sub_stop" if alive else "sub_start"})
@@ -109,7 +109,7 @@ def check(ctx):
     m1.holds("refresh 2, TTL 6", "C14_quick.cfg", None if ctx.quick else {"MaxEv = 4": "MaxEv = 5"}, timeout=3000)
     m1.holds("infinite TTL, no refresh", "C14_quick.cfg", {"C14_A": "C14_B"})
     m1.caught("SwSubOrder", "C14_quick.cfg")
-    traces = traces_for(ctx.seed, ctx.pick(360, 6000), ctx.pick(10, 16))
+    traces = traces_for(ctx.seed, ctx.pick(900, 9000), ctx.pick(10, 16))
     bad, ms = judge(ctx, "Mon_C14", traces, "subscriber histories", payload)
     acc = total = 0
     for var in "RSF":
